@@ -28,12 +28,12 @@ Definition chk_scale (W n : Z) : bool :=
   forallb (fun x => exactly (scaleF W w' x) (scaleQ W w' x)) (zrange W) &&
   forallb (fun x => exactly (scaleF w' W x) (scaleQ w' W x)) (zrange w').
 
-Definition NS : Z := 192.
+Definition NS : Z := 240.
 
 Lemma sweep_scale_ok : forallb (fun W => forallb (fun n => chk_scale W n) (range1 W)) (range1 NS) = true.
 Proof. vm_compute. reflexivity. Qed.
 
-(* C17_F_agrees_Q_on: for every screen width up to 192 and every factor, the double expression of
+(* C17_F_agrees_Q_on: for every screen width up to 240 and every factor, the double expression of
    ScaleX (both directions, formula of commit c7c2b1b: multiply, then divide) is defined and equals
    the exact value floor(x*to/from) *)
 Theorem scaleF_is_Q : forall W n,
@@ -78,12 +78,12 @@ Definition chk_corr (W n : Z) : bool :=
   forallb (fun x => forallb (fun w => good_corr W w' x w (corr1F W w' x w)) (range1 (W - x))) (zrange W) &&
   forallb (fun x => good_corr w' W x 1 (corr1F w' W x 1)) (zrange w').
 
-Definition NC : Z := 56.
+Definition NC : Z := 60.
 
 Lemma sweep_corr_ok : forallb (fun W => forallb (fun n => chk_corr W n) (range1 W)) (range1 NC) = true.
 Proof. vm_compute. reflexivity. Qed.
 
-(* C17_correction_inside over the doubles, swept range: every rectangle inside a screen up to 56
+(* C17_correction_inside over the doubles, swept range: every rectangle inside a screen up to 60
    wide, every factor: the corrected rectangle is non-empty, inside the scaled screen and covers the
    exact image; the same for one-pixel rectangles in the other direction *)
 Theorem corr1F_inside : forall W n,
